@@ -49,8 +49,13 @@ fn run_case(c: &Val) -> Val {
     }
 }
 
+pub static PANICS: std::sync::atomic::AtomicU64 = std::sync::atomic::AtomicU64::new(0);
+
 fn main() {
-    std::panic::set_hook(Box::new(|_| {}));
+    // silent hook that counts: a panic on any thread (daemon thread, ring workers) is observable through the "panics" step
+    std::panic::set_hook(Box::new(|_| {
+        PANICS.fetch_add(1, std::sync::atomic::Ordering::SeqCst);
+    }));
     let stdin = std::io::stdin();
     let stdout = std::io::stdout();
     let mut out = stdout.lock();
